@@ -304,6 +304,11 @@ def finish(ctx: Ctx, lean_status: dict, level: str, trusted_base, assumptions, k
         verdict_lines.append(f"VIOLATION property={pid} replay={replay_path} no-failing-input-found")
         exit_code = 1
 
+    if exit_code == 0:
+        stale = os.path.join(VERIF, "replays", f"{pid}-{ctx.tier}-{ctx.seed}.json")
+        if os.path.exists(stale):
+            os.remove(stale)
+
     obligations = lean_status.get("obligations", 0)
     discharged = lean_status.get("discharged", 0)
     cov = {
